@@ -56,6 +56,8 @@ func c02Alphabet() []TNode {
 		{Path: "src/ldd", Kind: "link", Target: "..data"},
 		{Path: "src/d/ldd", Kind: "link", Target: "../..d/x"},
 		{Path: "src/l3", Kind: "link", Target: "..."},
+		{Path: "src/lq", Kind: "link", Target: "ld/../a"}, // '..' after a symlinked directory: cleaning it changes the meaning
+		{Path: "src/l5", Kind: "link", Target: "./a"},
 	}
 }
 
@@ -79,9 +81,10 @@ func c05Links() []TNode {
 			ns = append(ns, TNode{Path: p, Kind: "link", Target: t})
 		}
 	}
-	add("src/l", "a", "d", "d/f", "../out/f", "../out/dir", "../src-evil/secret", "../src-evil", "../src-evil/sub", "<W>/src/a", "<W>/out/f", "<W>/out/dir", "m", "nope", "../nope", "../out2/h", "../out/dir/l", "d/../../out/f")
-	add("src/d/l", "../a", "f", "../../out/f", "../../out/dir", "../../src-evil/secret", "../l", "<W>/out2/h", "../out/f")
-	add("src/zz", "../a", "../out/f", "a")
+	add("src/l", "..", "a", "d", "d/f", "../out/f", "../out/dir", "../src-evil/secret", "../src-evil", "../src-evil/sub", "<W>/src/a", "<W>/out/f", "<W>/out/dir", "m", "nope", "../nope", "../out2/h", "../out/dir/l", "d/../../out/f")
+	add("src/d/l", "../..", "<W>", "../a", "f", "../../out/f", "../../out/dir", "../../src-evil/secret", "../l", "<W>/out2/h", "../out/f")
+	add("src/zz", "../a", "../out/f", "a", "../src/a", "../src/d")
+	add("src/d/l2", "../../src/a", "<W>/out/./dir/", "<W>/out/dir/../dir")
 	add("src-evil/sub/back", "../../src/a", "s")
 	add("src/m", "../out/f", "../out/dir", "a", "l")
 	add("out/dir/l", "../../src/a", "g", "../f", "../../out2/h", "../../out2", "../../src/d", "<W>/src/a", "<W>/out/dir/g")
